@@ -355,6 +355,8 @@ static void scenario_sem(int nprod, int ncons, int per, int delay)
 			for (int k = 0; k < per * ncons; k++) {
 				if (delay % 3 == 1 && k % 7 == 0)
 					usleep(delay % 50);
+				if (delay % 7 == 3 && k % 3 == 0)
+					ps->post(0); // an empty batch: adds nothing
 				if (delay % 5 == 2 && k + 1 < per * ncons) {
 					ps->post(2); // post(n)
 					k++;
